@@ -7,7 +7,7 @@ export CARGO_NET_OFFLINE=true
 TOOLS=$(dirname $(find ~/.rustup/toolchains/nightly-x86_64-unknown-linux-gnu -name llvm-profdata | head -1))
 OUT=/verif/.build/coverage; rm -rf $OUT; mkdir -p $OUT/prof
 flock -s /verif/.build/repo.lock true
-RUSTFLAGS="-C instrument-coverage" CARGO_TARGET_DIR=/verif/.build/cargo-cov cargo +nightly build --offline 2>&1 | tail -2
+LLVM_PROFILE_FILE=/verif/.build/coverage/build-%p-%m.profraw RUSTFLAGS="-C instrument-coverage" CARGO_TARGET_DIR=/verif/.build/cargo-cov cargo +nightly build --offline 2>&1 | tail -2
 BIN=/verif/.build/cargo-cov/debug/pcv-harness
 cd /verif/lean/PCV && flock /verif/.build/lake.lock lake build pcvdrv >/dev/null 2>&1; cp .lake/build/bin/pcvdrv $OUT/pcvdrv
 for p in C01 C02 C03 C04 C05 C06 C07 C08 C09 C10 C11 C12 C13 C14 C15 C16 C17 C19; do
